@@ -10,37 +10,37 @@ open ILV.C18
 /-- **C18, full statement.** After EVERY history of inserts, deletes, prefix clears, rule registrations,
     clause removals / replacements / clears, rule / prefix / relation drops, index creation (which
     switches incremental maintenance on) and drops, and materialisations — for every rule set the
-    catalogue accepts (chains of derived relations, recursion, anything) — that
-
-    * respects the API's own contract (`wellUsed`: only a relation that has clauses is materialised, and
-      with its complete current extension; a rule head carries no stored tuples; a replacement clause
-      keeps its head), and
-    * on which the model's fuel-bounded evaluator reached its fix-points (`evalConverged`, decidable; the
-      driver observes it on every generated history — it has never failed),
-
-    every query is answered from the published snapshot exactly as a fresh evaluation of the current
+    catalogue accepts (chains of derived relations, recursion, anything) — that respects the API's own
+    contract (`wellUsed`: only a relation that has clauses is materialised, and with its complete current
+    extension; a rule head carries no stored tuples; a replacement clause keeps its head), every query is
+    answered from the published snapshot exactly as a fresh evaluation of the current
     rules over the current facts answers it. -/
-theorem C18 (h : List Step) (q : Atom) (hw : wellUsed init h = true) (hc : evalConverged init h = true) :
+theorem C18 (h : List Step) (q : Atom) (hw : wellUsed init h = true) :
     SetEq (answer (snapDb (run h)) q) (answer (fresh (run h)) q) :=
-  fanswers_agree (finv_run h hw hc) q
+  fanswers_agree (finv_run h hw) q
+
+/-- The model's evaluator (naive iteration with a fuel bound and early stop) always reaches its
+    fix-point within the bound, so nothing in `C18` is conditional on it. -/
+theorem C18_evaluator_total (prog : List Clause) (inputs : List (Name × List Tup)) : conv prog inputs = true :=
+  conv_always prog inputs
 
 /-- The invariant behind it (DESIGN: `valid m → m.tuples = PM(name)`), now without any restriction on
     the rules: every valid materialisation equals the fresh evaluation of its relation. -/
-theorem C18_valid_is_fresh (h : List Step) (hw : wellUsed init h = true) (hc : evalConverged init h = true)
+theorem C18_valid_is_fresh (h : List Step) (hw : wellUsed init h = true)
     (i : Inc) (n : Name) (m : Mat) (hi : (run h).inc = some i) (hm : aget i.mats n = some m)
     (hv : m.valid = true) : SetEq m.tuples (fresh (run h) n) :=
-  ((finv_run h hw hc).core.mats i n m hi hm hv).2
+  ((finv_run h hw).core.mats i n m hi hm hv).2
 
 /-- the published snapshot is always the current one … -/
-theorem C18_snapshot_current (h : List Step) (hw : wellUsed init h = true) (hc : evalConverged init h = true) :
+theorem C18_snapshot_current (h : List Step) (hw : wellUsed init h = true) :
     (run h).snap = mkSnap (run h) :=
-  (finv_run h hw hc).snap
+  (finv_run h hw).snap
 
 /-- … and the engine's rule registry always knows every dependency of every catalogued rule. -/
-theorem C18_edges_registered (h : List Step) (hw : wellUsed init h = true) (hc : evalConverged init h = true)
+theorem C18_edges_registered (h : List Step) (hw : wellUsed init h = true)
     (i : Inc) (hi : (run h).inc = some i) (n : Name) (c : Clause) (hcl : c ∈ clausesNow (run h) n)
     (r : Name) (hr : r ∈ bodyRels c) (hne : r ≠ n) : n ∈ (aget i.b2d r).getD [] :=
-  (finv_run h hw hc).core.edges i hi n c hcl r hr hne
+  (finv_run h hw).core.edges i hi n c hcl r hr hne
 
 /-! ### the hypotheses are met by non-trivial histories: the four former refutation witnesses -/
 
@@ -71,10 +71,10 @@ def wDrop : List Step := [.idx, .ins nF [[1]], .reg cBF, .mat nB 1, .drel nF]
 /-- the rule is older than the engine (was `C18_edge_missing_stale`). -/
 def wLate : List Step := [.ins nF [[1]], .reg cBF, .idx, .mat nB 1, .ins nF [[2]]]
 
-example : wellUsed init wDerived = true ∧ evalConverged init wDerived = true := by decide
-example : wellUsed init wEdit = true ∧ evalConverged init wEdit = true := by decide
-example : wellUsed init wDrop = true ∧ evalConverged init wDrop = true := by decide
-example : wellUsed init wLate = true ∧ evalConverged init wLate = true := by decide
+example : wellUsed init wDerived = true := by decide
+example : wellUsed init wEdit = true := by decide
+example : wellUsed init wDrop = true := by decide
+example : wellUsed init wLate = true := by decide
 
 /-- what the repaired machine answers on them (each was `[[1]]` before the repair), and that the stale
     materialisation is gone in each case. -/
@@ -90,7 +90,7 @@ def wUse : List Step :=
   [.idx, .ins nE [[1, 2], [2, 3]], .ins nF [[7]], .reg cPE, .reg cPR, .reg cAF, .reg cBA,
    .mat nP 2, .mat nB 1, .q qP, .ins nF [[8]], .q qP, .q qB]
 
-example : wellUsed init wUse = true ∧ evalConverged init wUse = true := by decide
+example : wellUsed init wUse = true := by decide
 example : (run (wUse.take 9)).snap.rules = [cAF] ∧
     answer (snapDb (run (wUse.take 9))) qP = [[1, 2], [2, 3], [1, 3]] := by decide
 example : (run wUse).inc.map validMats = some [(nP, [[1, 2], [2, 3], [1, 3]])] ∧
